@@ -27,6 +27,14 @@ package vgirpc
 //@   at call newNonceCache assert [ttlcovers] 0 < cfg.SkewSeconds && cfg.SkewSeconds <= 1000000000 ==> arg0 >= (2*cfg.SkewSeconds + 1) * 1000000000
 //@   at call newNonceCache assert [capacity] arg1 > 0
 
+// verifyRequestProof hands its configuration to VerifyProof unchanged; the closure built by
+// ProofAuthenticate passes the address of its own copy, so the precondition is met at the only
+// call site.
+//
+//@ func verifyRequestProof
+//@   property C25
+//@   requires cfg != nil
+
 //@ lemma nonceWindowCovered [C25]: forall ts int, skew int, n1 int, n2 int, ttl int ::
 //@   skew > 0 && ttl >= (2*skew+1)*1000000000 && n1 <= n2 &&
 //@   ts - skew <= n1 / 1000000000 && n1 / 1000000000 <= ts + skew &&
